@@ -636,3 +636,11 @@ a:
 b:
   ret void
 }
+;;; ATOM inst/gep-struct-index-foldable-expression
+%S = type { i32, { i8, i64 } }
+@s = global { i32, i64 } zeroinitializer
+@x = global i64* getelementptr ({ i32, i64 }, { i32, i64 }* @s, i32 0, i32 add (i32 0, i32 1))
+define void @f(%S* %p) {
+  %g1 = getelementptr %S, %S* %p, i32 0, i32 add (i32 0, i32 1)
+  ret void
+}
